@@ -8,6 +8,7 @@ import (
 	"io"
 	"net/http"
 	"net/http/httptest"
+	"strings"
 
 	"github.com/getkin/kin-openapi/openapi3"
 	"github.com/getkin/kin-openapi/openapi3filter"
@@ -35,6 +36,23 @@ type c08Case struct {
 	Multi         bool     `json:"multi"`
 	Req           string   `json:"req"`
 	Wrap          string   `json:"wrap"`
+	Hdrs          []c08Hdr `json:"hdrs"`
+	Extra         bool     `json:"extra"`
+	Pad           string   `json:"pad"`
+	Variant       string   `json:"variant"`
+	Pv            string   `json:"pv"`
+}
+
+// one declared response header of part "hdr": the schema is an abstract schema of spec/SchemaSem.tla
+type c08Hdr struct {
+	Name    string `json:"name"`
+	Hs      any    `json:"hs"`
+	Hreq    bool   `json:"hreq"`
+	Explode bool   `json:"explode"`
+	Present bool   `json:"present"`
+	Text    string `json:"text"`
+	Cs2     []any  `json:"cs2"` // a second field line of the same header (absent: one line)
+	Text2   string `json:"text2"`
 }
 
 func c08Run(c *Case) []any {
@@ -43,7 +61,48 @@ func c08Run(c *Case) []any {
 	var raw map[string]any
 	c.Decode(&raw)
 	line := map[string]any{"case": c.Idx, "c": raw}
+	in, body, docErr := c08Build(&tc)
+	if docErr != nil {
+		line["doc"] = "error"
+		line["docErr"] = docErr.Error()
+		return []any{line}
+	}
+	line["doc"] = "ok"
+	line["verdict"] = c08Validate(in)
+	line["sent"] = string(body)
+	if in.Body == nil {
+		line["after"] = "<nil body>"
+	} else if b, err := io.ReadAll(in.Body); err != nil {
+		line["after"] = "<read error>"
+	} else {
+		line["after"] = string(b)
+	}
+	return []any{line}
+}
+
+// c08Validate calls the library on a realised response and projects the result to its class.
+func c08Validate(in *openapi3filter.ResponseValidationInput) string {
+	var verr error
+	p, _ := guard(func() { verr = openapi3filter.ValidateResponse(context.Background(), in) })
+	var re *openapi3filter.ResponseError
+	switch {
+	case p:
+		return "panic"
+	case verr == nil:
+		return "ok"
+	case errors.As(verr, &re):
+		return "response_error"
+	default:
+		return "other_error"
+	}
+}
+
+// c08Build realises one abstract response (document loaded through the real loader, route found by the real router,
+// header set, body bytes) as a ResponseValidationInput; it does not call the validator.
+func c08Build(tcp *c08Case) (*openapi3filter.ResponseValidationInput, []byte, error) {
+	tc := *tcp
 	responses := map[string]any{}
+	var components map[string]any
 	status := 200
 	method := "GET"
 	hdr := http.Header{}
@@ -56,10 +115,17 @@ func c08Run(c *Case) []any {
 		for _, k := range tc.Keys {
 			responses[k] = map[string]any{"description": k,
 				"content": jsonContent(map[string]any{"type": "object", "required": []any{"e" + k}})}
+			if tc.Pv == "reqhdr" {
+				responses[k].(map[string]any)["headers"] = map[string]any{"X-Req": map[string]any{"required": true, "schema": map[string]any{"type": "string"}}}
+			}
 		}
+		opts.ExcludeResponseBody = tc.Pv == "xb"
 		status, method = tc.Status, tc.Method
 		hdr.Set("Content-Type", "application/json")
 		body = []byte(`{"e` + tc.BodyKey + `":1}`)
+		if tc.Pad != "" {
+			body = []byte(`{"e` + tc.BodyKey + `":1,"n":"` + tc.Pad + `"}`)
+		}
 		opts.IncludeResponseStatus = tc.IncludeStatus
 	} else {
 		r := map[string]any{"description": "ok"}
@@ -113,9 +179,54 @@ func c08Run(c *Case) []any {
 			r["content"] = map[string]any{"application/*": map[string]any{"schema": bodySchema}}
 		case "jsonAndText":
 			r["content"] = map[string]any{"application/json": map[string]any{"schema": bodySchema}, "text/plain": map[string]any{"schema": textSchema}}
+		case "any":
+			r["content"] = map[string]any{"*/*": map[string]any{"schema": bodySchema}}
+		}
+		if tc.Part == "hdr" {
+			hs := map[string]any{}
+			for _, h := range tc.Hdrs {
+				hs[h.Name] = map[string]any{"required": h.Hreq, "explode": h.Explode, "schema": absSchemaToOpenAPI(h.Hs)}
+				if h.Present {
+					// as net/http stores a received header: canonical key, one field line, the text as sent (possibly empty)
+					hdr[http.CanonicalHeaderKey(h.Name)] = []string{h.Text}
+					if h.Cs2 != nil {
+						hdr[http.CanonicalHeaderKey(h.Name)] = []string{h.Text, h.Text2}
+					}
+				}
+			}
+			r["headers"] = hs
+			if tc.Extra {
+				hdr.Set("X-Undeclared", "zzz")
+			}
 		}
 		responses["200"] = r
-		if tc.Hv != "absent" {
+		if tc.Variant == "ref" {
+			// the same definition, every part of it reached through a reference
+			comps := map[string]any{"responses": map[string]any{"R": r}}
+			responses["200"] = map[string]any{"$ref": "#/components/responses/R"}
+			if hs, ok := r["headers"].(map[string]any); ok {
+				ch := map[string]any{}
+				for name, h := range hs {
+					id := "H" + strings.ReplaceAll(name, "-", "")
+					ch[id] = h
+					hs[name] = map[string]any{"$ref": "#/components/headers/" + id}
+				}
+				comps["headers"] = ch
+			}
+			if ct, ok := r["content"].(map[string]any); ok {
+				cs := map[string]any{}
+				for mt, m := range ct {
+					if mm, ok := m.(map[string]any); ok && mm["schema"] != nil {
+						id := "S" + strings.NewReplacer("/", "", "*", "x", "+", "").Replace(mt)
+						cs[id] = mm["schema"]
+						mm["schema"] = map[string]any{"$ref": "#/components/schemas/" + id}
+					}
+				}
+				comps["schemas"] = cs
+			}
+			components = comps
+		}
+		if tc.Part != "hdr" && tc.Hv != "absent" {
 			hdr.Set("X-A", tc.Hv)
 		}
 		if tc.CtText != "" {
@@ -134,17 +245,17 @@ func c08Run(c *Case) []any {
 	op := map[string]any{"responses": responses}
 	doc := map[string]any{"openapi": "3.0.3", "info": map[string]any{"title": "t", "version": "1"},
 		"paths": map[string]any{"/t": map[string]any{"get": op, "head": op}}}
+	if components != nil {
+		doc["components"] = components
+	}
 	data, _ := json.Marshal(doc)
 	d, err := openapi3.NewLoader().LoadFromData(data)
 	if err == nil {
 		err = d.Validate(context.Background())
 	}
 	if err != nil {
-		line["doc"] = "error"
-		line["docErr"] = err.Error()
-		return []any{line}
+		return nil, nil, err
 	}
-	line["doc"] = "ok"
 	router, err := gorillamux.NewRouter(d)
 	if err != nil {
 		panic(err)
@@ -157,28 +268,10 @@ func c08Run(c *Case) []any {
 	in := &openapi3filter.ResponseValidationInput{
 		RequestValidationInput: &openapi3filter.RequestValidationInput{Request: req, PathParams: pp, Route: route, Options: opts},
 		Status:                 status, Header: hdr, Body: io.NopCloser(bytes.NewReader(body)), Options: opts}
-	var verr error
-	p, _ := guard(func() { verr = openapi3filter.ValidateResponse(context.Background(), in) })
-	var re *openapi3filter.ResponseError
-	switch {
-	case p:
-		line["verdict"] = "panic"
-	case verr == nil:
-		line["verdict"] = "ok"
-	case errors.As(verr, &re):
-		line["verdict"] = "response_error"
-	default:
-		line["verdict"] = "other_error"
+	if tc.Variant == "nilopts" {
+		in.Options, in.RequestValidationInput.Options = nil, nil
 	}
-	line["sent"] = string(body)
-	if in.Body == nil {
-		line["after"] = "<nil body>"
-	} else if b, err := io.ReadAll(in.Body); err != nil {
-		line["after"] = "<read error>"
-	} else {
-		line["after"] = string(b)
-	}
-	return []any{line}
+	return in, body, nil
 }
 
 func init() {
